@@ -115,7 +115,14 @@ theorem resolveOne_nodup (classes : Classes) (names : List Str) (ns : Option Str
           cases h
           exact set_keys_nodup _ _ acc hn
         · rw [if_neg hc] at h
-          cases h
+          split at h
+          · cases h
+          · cases hd : i.default with
+            | none => rw [hd] at h; cases h
+            | some d =>
+              rw [hd] at h
+              cases h
+              exact set_keys_nodup _ _ acc hn
       | error e =>
         rw [hf] at h
         simp only at h
